@@ -691,5 +691,27 @@ theorem rejectionMsg_names (ps : List MsgPiece) (path err : Str) (h : MsgPiece.p
       obtain ⟨a, b, e⟩ := ih (by simpa using h)
       exact ⟨err ++ a, b, by simp [rejectionMsg, e]⟩
 
+theorem rejectionText_names (rules : List (ErrGuard × List MsgPiece)) (path err : Str)
+    (h : rulesNameFile rules = true) :
+    ∃ a b, rejectionText rules path err = a ++ path ++ b := by
+  simp only [rulesNameFile, Bool.and_eq_true] at h
+  obtain ⟨hall, hany⟩ := h
+  induction rules with
+  | nil => simp at hany
+  | cons r rs ih =>
+    obtain ⟨g, ps⟩ := r
+    simp only [rejectionText]
+    split
+    · apply rejectionMsg_names
+      simp only [List.all_cons, Bool.and_eq_true] at hall
+      simpa using hall.1
+    · rename_i hg
+      simp only [List.all_cons, Bool.and_eq_true] at hall
+      simp only [List.any_cons, Bool.or_eq_true] at hany
+      rcases hany with hany | hany
+      · simp only [beq_iff_eq] at hany
+        subst hany
+        simp [ErrGuard.holds] at hg
+      · exact ih hall.2 hany
 
 end Ford.Markup
